@@ -9,6 +9,7 @@ import NutsModel.Facts.C10
 import NutsProofs.Lemmas.C10
 import NutsProofs.Lemmas.C10Obs
 import NutsProofs.Lemmas.C10Shelves
+import NutsProofs.Lemmas.C10Backend
 
 namespace Nuts.C10.Props
 open Nuts.C10
@@ -135,6 +136,17 @@ theorem fact_store_wiring :
     Facts.C10.engineOrder.idxOf "didStore" < Facts.C10.engineOrder.idxOf "vdrInstance" ∧
     Facts.C10.engineOrder.idxOf "didStore" < Facts.C10.engineOrder.idxOf "networkInstance" ∧
     "vdrInstance" ∈ Facts.C10.engineOrder ∧ "networkInstance" ∈ Facts.C10.engineOrder := by decide
+
+/-- `store.Add` runs TWO write transactions: the first only writes the document and the transaction index entry
+    (`writeDocument`) and is COMMITTED — Add returns on its error — before the second one reads the event list, applies
+    the events (`applyFrom` → `applyDocument` reads the transaction index) and writes the event list. The model's
+    `addTwoTx`; a backend need not show a write transaction its own uncommitted writes (go-stoabs redis7 does not). -/
+theorem fact_add_commits_index_before_event_transaction :
+    Facts.C10.addWriteTransactions =
+      ["writeDocument stoabs.WithWriteLock()",
+       "readEventList,contains,insert,applyFrom,writeEventList stoabs.WithWriteLock()"] ∧
+    Facts.C10.addBetweenTransactions =
+      ["if err != nil { return fmt.Errorf(\"database error on commit: %w\", err) }"] := by decide
 
 /-! ### `before` is a strict total order on events with distinct refs -/
 
@@ -529,6 +541,60 @@ example : (match addAll cfg0 {} [evCreate, evA, evB], addAll cfg0 {} [evB, evA, 
       (s₁.get "did:nuts:x").conflicted && (s₂.get "did:nuts:x").conflicted &&
       s₁.conflictedCount == 1 && s₂.conflictedCount == 1 && s₁.documentCount == 1 && s₂.documentCount == 1
     | _, _ => false) = true := by decide
+
+/-! ### why Add uses two write transactions: no "read your own writes" is needed -/
+
+/-- **The two-transaction Add works on a backend whose in-transaction reads see committed data only.** For every
+    arrival sequence on the store and every DID: running the DID's arrivals through `addTwoTx` (transaction 1 commits the
+    index entry, transaction 2 looks up only COMMITTED index entries) never fails where the chain model succeeds and
+    ends in exactly the chain model's state — so everything proved above (order independence of Resolve, counters,
+    iterators, history, …) holds on such a backend (go-stoabs redis7) without assuming that a write transaction reads
+    its own writes. -/
+theorem two_tx_add_needs_no_read_your_writes (cfg : Cfg) (l : List Event) (s : Store) (h : addAll cfg {} l = .ok s)
+    (id : String) :
+    ∃ c, twoTxAll cfg {} (l.filter (fun e => e.doc.id = id)) = .ok c ∧ c.st = s.get id ∧ CInv c := by
+  have hget := addAll_get cfg l {} s h id
+  have h0 : ({} : Store).get id = {} := by simp [Store.get, alGet]
+  rw [h0] at hget
+  exact twoTxAll_refines cfg _ {} (s.get id) cInv_empty hget
+
+/-- hence order independence on that backend, stated directly -/
+theorem two_tx_add_order_independent_on_committed_reads (σ₁ σ₂ : Field → List Entry → List Entry)
+    (h₁ : ∀ f l, (σ₁ f l).Perm l) (h₂ : ∀ f l, (σ₂ f l).Perm l)
+    (l₁ l₂ : List Event) (hU : RefFun l₁) (hsame : ∀ e, e ∈ l₁ ↔ e ∈ l₂) (s₁ s₂ : Store)
+    (r₁ : addAll (cfgOf σ₁ Facts.C10.mergeSortedFields) {} l₁ = .ok s₁)
+    (r₂ : addAll (cfgOf σ₂ Facts.C10.mergeSortedFields) {} l₂ = .ok s₂) (id : String) :
+    ∃ c₁ c₂, twoTxAll (cfgOf σ₁ Facts.C10.mergeSortedFields) {} (l₁.filter (fun e => e.doc.id = id)) = .ok c₁ ∧
+      twoTxAll (cfgOf σ₂ Facts.C10.mergeSortedFields) {} (l₂.filter (fun e => e.doc.id = id)) = .ok c₂ ∧
+      c₁.st = c₂.st := by
+  obtain ⟨c₁, a1, b1, _⟩ := two_tx_add_needs_no_read_your_writes _ l₁ s₁ r₁ id
+  obtain ⟨c₂, a2, b2, _⟩ := two_tx_add_needs_no_read_your_writes _ l₂ s₂ r₂ id
+  exact ⟨c₁, c₂, a1, a2, by rw [b1, b2, (resolve_order_independent σ₁ σ₂ h₁ h₂ l₁ l₂ hU hsame s₁ s₂ r₁ r₂ id).1]⟩
+
+/-- **… and the ONE-transaction Add does not.** Folding `writeDocument` into the event transaction makes the store
+    arrival-order dependent on such a backend. Witness: a 2-way fork {create, A, B} where B sorts before A. Arrival
+    create, B, A: every Add succeeds, three events, conflicted. Arrival create, A, B: B arrives late, is inserted before A,
+    A is re-applied and does not consume B, `applyDocument` looks B's own index entry up — written in this very
+    transaction, not committed — and Add(B) fails (and would fail on every re-delivery): two events, no conflict.
+    The two-transaction Add gives the same three-event, conflicted state for both orders. -/
+theorem one_tx_add_order_dependent_witness :
+    (addSeq (addOneTx cfg0) {} [evCreate, evB, evA]).2 = 0 ∧
+    (addSeq (addOneTx cfg0) {} [evCreate, evB, evA]).1.st.events.map (·.ref) = [100, 150, 200] ∧
+    (addSeq (addOneTx cfg0) {} [evCreate, evB, evA]).1.st.conflicted = true ∧
+    addOneTx cfg0 (addSeq (addOneTx cfg0) {} [evCreate, evA]).1 evB = .err "txref-not-found" ∧
+    (addSeq (addOneTx cfg0) {} [evCreate, evA, evB, evB]).2 = 2 ∧
+    (addSeq (addOneTx cfg0) {} [evCreate, evA, evB, evB]).1.st.events.map (·.ref) = [100, 200] ∧
+    (addSeq (addOneTx cfg0) {} [evCreate, evA, evB, evB]).1.st.conflicted = false ∧
+    (addSeq (addTwoTx cfg0) {} [evCreate, evA, evB]).2 = 0 ∧
+    (addSeq (addTwoTx cfg0) {} [evCreate, evA, evB]).1.st.events.map (·.ref) = [100, 150, 200] ∧
+    (addSeq (addTwoTx cfg0) {} [evCreate, evA, evB]).1.st.conflicted = true := by
+  refine ⟨by decide, by decide, by decide, ?_, by decide, by decide, by decide, by decide, by decide, by decide⟩
+  have : (match addOneTx cfg0 (addSeq (addOneTx cfg0) {} [evCreate, evA]).1 evB with
+    | .err x => x == "txref-not-found" | _ => false) = true := by decide
+  cases h : addOneTx cfg0 (addSeq (addOneTx cfg0) {} [evCreate, evA]).1 evB with
+  | ok c => rw [h] at this; cases this
+  | panic x => rw [h] at this; cases this
+  | err x => rw [h] at this; simp only [beq_iff_eq] at this; rw [this]
 
 /-! ### the by-time form of the deactivation clause is FALSE of the code (open finding) -/
 
